@@ -65,6 +65,7 @@ class DataType(EntityType):
             "Number of bins": "number_of_bins",
             "Primitive type": "primitive_type",
             "Transparent no data": "transparent_no_data",
+            "Units": "units",
         }
     )
 
